@@ -142,7 +142,8 @@ func (a *uint8Array) get(idx int) Value {
 }
 
 func (a *uint8Array) set(idx int, value Value) {
-	*(a.ptr(idx)) = toUint8(value)
+	v := toUint8(value) // convert first: the conversion may run user code that detaches the buffer
+	*(a.ptr(idx)) = v
 }
 
 func (a *uint8Array) getRaw(idx int) uint64 {
@@ -192,7 +193,8 @@ func (a *uint8ClampedArray) get(idx int) Value {
 }
 
 func (a *uint8ClampedArray) set(idx int, value Value) {
-	*(a.ptr(idx)) = toUint8Clamp(value)
+	v := toUint8Clamp(value) // convert first: the conversion may run user code that detaches the buffer
+	*(a.ptr(idx)) = v
 }
 
 func (a *uint8ClampedArray) getRaw(idx int) uint64 {
@@ -242,7 +244,8 @@ func (a *int8Array) getRaw(idx int) uint64 {
 }
 
 func (a *int8Array) set(idx int, value Value) {
-	*(a.ptr(idx)) = toInt8(value)
+	v := toInt8(value) // convert first: the conversion may run user code that detaches the buffer
+	*(a.ptr(idx)) = v
 }
 
 func (a *int8Array) toRaw(v Value) uint64 {
@@ -294,7 +297,8 @@ func (a *uint16Array) get(idx int) Value {
 }
 
 func (a *uint16Array) set(idx int, value Value) {
-	*(a.ptr(idx)) = toUint16(value)
+	v := toUint16(value) // convert first: the conversion may run user code that detaches the buffer
+	*(a.ptr(idx)) = v
 }
 
 func (a *uint16Array) getRaw(idx int) uint64 {
@@ -346,7 +350,8 @@ func (a *int16Array) getRaw(idx int) uint64 {
 }
 
 func (a *int16Array) set(idx int, value Value) {
-	*(a.ptr(idx)) = toInt16(value)
+	v := toInt16(value) // convert first: the conversion may run user code that detaches the buffer
+	*(a.ptr(idx)) = v
 }
 
 func (a *int16Array) toRaw(v Value) uint64 {
@@ -398,7 +403,8 @@ func (a *uint32Array) getRaw(idx int) uint64 {
 }
 
 func (a *uint32Array) set(idx int, value Value) {
-	*(a.ptr(idx)) = toUint32(value)
+	v := toUint32(value) // convert first: the conversion may run user code that detaches the buffer
+	*(a.ptr(idx)) = v
 }
 
 func (a *uint32Array) toRaw(v Value) uint64 {
@@ -450,7 +456,8 @@ func (a *int32Array) getRaw(idx int) uint64 {
 }
 
 func (a *int32Array) set(idx int, value Value) {
-	*(a.ptr(idx)) = toInt32(value)
+	v := toInt32(value) // convert first: the conversion may run user code that detaches the buffer
+	*(a.ptr(idx)) = v
 }
 
 func (a *int32Array) toRaw(v Value) uint64 {
@@ -502,7 +509,8 @@ func (a *float32Array) getRaw(idx int) uint64 {
 }
 
 func (a *float32Array) set(idx int, value Value) {
-	*(a.ptr(idx)) = toFloat32(value)
+	v := toFloat32(value) // convert first: the conversion may run user code that detaches the buffer
+	*(a.ptr(idx)) = v
 }
 
 func (a *float32Array) toRaw(v Value) uint64 {
@@ -569,7 +577,8 @@ func (a *float64Array) getRaw(idx int) uint64 {
 }
 
 func (a *float64Array) set(idx int, value Value) {
-	*(a.ptr(idx)) = value.ToFloat()
+	v := value.ToFloat() // convert first: the conversion may run user code that detaches the buffer
+	*(a.ptr(idx)) = v
 }
 
 func (a *float64Array) toRaw(v Value) uint64 {
@@ -635,7 +644,8 @@ func toBigInt64(v Value) *big.Int {
 }
 
 func (a *bigInt64Array) set(idx int, value Value) {
-	*(a.ptr(idx)) = toBigInt64(value).Int64()
+	v := toBigInt64(value).Int64() // convert first: the conversion may run user code that detaches the buffer
+	*(a.ptr(idx)) = v
 }
 
 func (a *bigInt64Array) getRaw(idx int) uint64 {
@@ -692,7 +702,8 @@ func toBigUint64(v Value) *big.Int {
 }
 
 func (a *bigUint64Array) set(idx int, value Value) {
-	*(a.ptr(idx)) = toBigUint64(value).Uint64()
+	v := toBigUint64(value).Uint64() // convert first: the conversion may run user code that detaches the buffer
+	*(a.ptr(idx)) = v
 }
 
 func (a *bigUint64Array) getRaw(idx int) uint64 {
